@@ -42,6 +42,8 @@ def mc_configs(quick: bool) -> List[Tuple[str, Dict[str, Any], bool]]:
         ("collector || delete (manifest rewrite)", b(Prog=Raw("<- Prog_GDel"), **G1), True),
         ("collector || expire then append", b(Prog=Raw("<- Prog_GExp"), **G1), True),
         ("[must fail] metadata read before marker read", b(Prog=Raw("<- Prog_GApp"), **dict(G1, FixGCOrder=False, FixGCFail=False)), False),
+        ("[known finding, must fail] collector || Table.append_data(files) of a file built beforehand (no marker is written for it)",
+         b(Prog=Raw("<- Prog_GPre"), PreFiles={971}, **G1), False),
     ]
     if not quick:
         c += [("collector || two appenders (retry)", b(Prog=Raw("<- Prog_G2"), **dict(G2, MaxClock=2)), True),
@@ -67,11 +69,52 @@ def scenarios(quick: bool) -> List[Scenario]:
     return s
 
 
+KNOWN_PRE = ("prebuilt-append-unprotected",
+             "Table.append_data(files)/Transaction.append_files of a data file built beforehand writes no in-flight marker: a collection run that read the metadata "
+             "before the commit deletes the (old, unreferenced) file after the commit's existence check, and the committed snapshot references a deleted file")
+
+
+def prebuilt_finding(ctx: Ctx, quick: bool) -> None:
+    """The open known finding S14, reproduced on the real code each run under its fixed signature; anything else these
+    executions show (nonconformance, another invariant) is reported as an ordinary violation."""
+    scn = Scenario("gc-vs-prebuilt-append", [A("c1", "committer", [{"t": "append", "pre": 1}]), A("g1", "collector", [{"t": "gc", "grace": 1000}])],
+                   data_age_ms=10000, prebuilt=1)
+    steps = l1.solo_steps(scn)
+    jobs = [("list", s_) for s_ in l1.single_pause_schedules(scn, steps, stride=2 if quick else 1)]
+    traces = l1.run_many(scn, jobs)
+    v = l1.validate(scn, traces)
+    ctx.add_tlc(v.res)
+    hit = 0
+    for i, t in enumerate(traces):
+        ctx.count_case((scn.name, [(e["a"], e["k"]) for e in t["events"]]), nontrivial=True)
+        ctx.count_traces(1)
+        if v.accepted[i]:
+            continue
+        replay = {"scenario": scn.name, "schedule": t["schedule"], "outcomes": t["outcomes"], "errors": t["errors"]}
+        if v.violated[i] is not None and v.violated[i][1] in ("ReachablePresent", "InflightPresent", "OnlyOrphansDeleted", "NoLiveDelete"):
+            pos = v.violated[i][0]
+            replay["events"] = t["events"][max(0, pos - 12):pos]
+            hit += 1
+            ctx.violation(KNOWN_PRE[0], KNOWN_PRE[1], replay)
+        elif v.violated[i] is not None:
+            pos, inv = v.violated[i]
+            replay["events"] = t["events"][max(0, pos - 12):pos]
+            ctx.violation(f"{inv}:{scn.name}", f"invariant {inv} violated by a real execution of {scn.name} (outcomes {t['outcomes']})", replay)
+        else:
+            pos = v.reached[i]
+            bad = t["events"][pos - 1] if 0 < pos <= len(t["events"]) else {}
+            replay["events"] = t["events"][max(0, pos - 12):pos + 1]
+            ctx.violation(f"nonconformance:{scn.name}:{bad.get('k')}", f"real execution of {scn.name} is not a behaviour of DataShard.tla: event {pos} "
+                          f"{ {k: x for k, x in bad.items() if k not in ('obs', 'body')} }", replay)
+    ctx.cov["known_finding_prebuilt_reproduced_in"] = hit
+
+
 def run(ctx: Ctx) -> None:
     quick = ctx.tier == "quick"
     try:
         c01.run_mc(ctx, mc_configs(quick), INV)
         c01.conformance(ctx, scenarios(quick), n_random=15 if quick else 300, n_double=25 if quick else 500, stride=1)
+        prebuilt_finding(ctx, quick)
     finally:
         l1.close_pool()
     ctx.rule("model: all interleavings of the collector's storage calls with transaction steps; implementation: every single-pause schedule (each actor paused at each "
@@ -79,4 +122,5 @@ def run(ctx: Ctx) -> None:
              "non-trivial = collector and committer steps interleave; distinct by event sequence")
     ctx.assume("the grace period exceeds the duration of the collection run (the property's proviso): files written during the run are younger than grace",
                "data files may be arbitrarily old when their transaction commits (back-dated by 10 s with grace = 1 s in the real executions)",
-               "one collector at a time")
+               "one collector at a time",
+               "open known finding: files appended through the file-level API (built beforehand, possibly older than the grace period) are not protected by a marker")
